@@ -272,6 +272,13 @@ class Facts:
         if c is not None and c.im == 0:
             return {"+" if c.re > 0 else "-" if c.re < 0 else "0"}
         s = manifest_sign(e)
+        if "0" in s:
+            # a single product whose every factor is a reciprocal (or flagged positive) cannot vanish
+            x = e.expand() if hasattr(e, "expand") else e
+            if len(x.n) == 1:
+                (mono, c), = x.n.items()
+                if mono and all(a.pos or (isinstance(p, int) and p < 0) or (not isinstance(p, int) and getattr(p, "denominator", 1) == 1 and p < 0) for a, p in mono):
+                    s = s - {"0"}
         ent, flip = self.lookup(e)
         if ent is not None:
             t = {FLIP[x] for x in ent[1]} if flip else set(ent[1])
@@ -1152,7 +1159,7 @@ class Interp:
         if isinstance(node, ast.Tuple):
             return [self.eval_index_item(e, env) for e in node.elts]
         it = self.eval_index_item(node, env)
-        if isinstance(it, Tup) and it.kind == "tuple" and all(isinstance(x, (Expr, SliceV)) or x is None or x is Ellipsis for x in it.items):
+        if isinstance(it, Tup) and it.kind == "tuple" and all(isinstance(x, (Expr, SliceV, Arr)) or x is None or x is Ellipsis for x in it.items):
             return list(it.items)  # a[t] with t a tuple indexes one axis per entry
         return [it]
 
@@ -1599,6 +1606,21 @@ class Interp:
         if isinstance(base, Expr):
             # scalar indexed like an array (e.g. `...` on 0-d): keep the value
             return base
+        if isinstance(base, FuncRef) and base.kind == "ext" and base.dotted in ("numpy.r_",):
+            import ivec as IV
+
+            idx = self.eval_index(node.slice, env)
+            segs = []
+            for it in idx:
+                if isinstance(it, SliceV) and it.step is None and isinstance(it.hi, Expr):
+                    lo = it.lo if it.lo is not None else ZERO
+                    segs.append(((it.hi - lo).expand(), lo))
+                elif isinstance(it, Expr):
+                    segs.append((ONE, it))
+                else:
+                    return Unknown("np.r_ with a part that is not a range")
+            ivv = IV.IVec(segs)
+            return Arr((ivv.length().expand(),), Unknown("index vector"), "int", {"ivec": ivv})
         if isinstance(base, FuncRef) and base.kind == "method" and isinstance(base.bound, Opaque):
             return Unknown("item of attribute %s of an opaque object" % base.dotted)
         raise AnalysisError("%s:%d: subscript of %r not modelled" % (self.cur_mod.name, node.lineno, base))
